@@ -83,6 +83,27 @@ static void enumerateAll(const std::function<void(const Spec &)> &f) {
       }
     }
   }
+  // (a') abutting cells of very different widths (the ordering key mixes x, width and y): rows 10 wide, widths {1, 7, 8}
+  for (int nrows : {1, 2}) {
+    std::vector<RowSpec> rows;
+    for (int r = 0; r < nrows; ++r) rows.push_back(mkRow(0, 10, r, 2, r % 2 ? oFS : oN));
+    std::vector<int> W = {1, 7, 8};
+    for (int wa : W)
+      for (int wb : W)
+        for (int ra = 0; ra < nrows; ++ra)
+          for (int rb = 0; rb < nrows; ++rb)
+            for (int xa = 0; xa + wa <= 10; ++xa)
+              for (int xb = 0; xb + wb <= 10; ++xb) {
+                if (ra == rb && xa < xb + wb && xb < xa + wa) continue;
+                Spec s;
+                s.rows = rows;
+                CellSpec a; a.w = wa; a.h = 2; a.x = xa; a.y = 2 * ra;
+                CellSpec b; b.w = wb; b.h = 2; b.x = xb; b.y = 2 * rb;
+                s.cells = {a, b};
+                s.aux = 0;
+                withParams(s, true);
+              }
+  }
   // (b) placements produced by legalization itself from arbitrary inputs
   Cfg b;
   b.rhs = {2};
